@@ -172,14 +172,15 @@ def get_int_value(expr: ast.expr) -> Optional[int]:
 
 def is__name__equals__main__(cmp: ast.Compare) -> bool:
     """
-    Returns whether or not the given L{ast.Compare} is equal to C{__name__ == '__main__'}.
+    Returns whether or not the given L{ast.Compare} is equal to C{__name__ == '__main__'},
+    or to C{'__main__' == __name__}.
     """
-    return isinstance(cmp.left, ast.Name) \
-    and cmp.left.id == '__name__' \
-    and len(cmp.ops) == 1 \
-    and isinstance(cmp.ops[0], ast.Eq) \
-    and len(cmp.comparators) == 1 \
-    and _is_str_constant(cmp.comparators[0], '__main__')
+    if len(cmp.ops) != 1 or not isinstance(cmp.ops[0], ast.Eq) or len(cmp.comparators) != 1:
+        return False
+    for name, value in ((cmp.left, cmp.comparators[0]), (cmp.comparators[0], cmp.left)):
+        if isinstance(name, ast.Name) and name.id == '__name__' and _is_str_constant(value, '__main__'):
+            return True
+    return False
 
 def is_using_typing_final(expr: Optional[ast.AST], 
                     ctx:'model.Documentable') -> bool:
